@@ -24,7 +24,7 @@ def _kw():
 def correspondence(ctx):
     kw, styles = _kw()
     acc = (lambda p: p['style'] in styles) if styles else None
-    r = FL.correspondence(ctx, PID, kw, 60, 1500, accept=acc)
+    r = FL.correspondence(ctx, PID, kw, 60, 1500, accept=acc, extra_progs=designed(ctx.rng, ctx.n(6, 100)))
     # the plugin layer: scripts come from the settings text, episodes also end with the print, pause / resume must not touch them
     PS.merge_into(r, ctx, PID.lower() + 'p', 25, 500, extra=[PS.ext_edit_history(ctx.rng) for _ in range(ctx.n(15, 300))])
     return r
@@ -33,7 +33,7 @@ def correspondence(ctx):
 def oracle(ctx, budget=1, replay=None, hints=None):
     kw, styles = _kw()
     acc = (lambda p: p['style'] in styles) if styles else None
-    r = FL.oracle(ctx, PID, [O.check_C06], kw, 150 * budget, accept=acc, replay=replay)
+    r = FL.oracle(ctx, PID, [O.check_C06], kw, 150 * budget, accept=acc, replay=replay, extra_progs=designed(ctx.rng, 10 * budget))
     n = 40 * budget
     for _ in range(n):
         h = PS.gen_history(ctx.rng)
@@ -43,3 +43,33 @@ def oracle(ctx, budget=1, replay=None, hints=None):
     r['evaluations'] += n
     r.setdefault('distribution', {})['plugin_histories'] = n
     return r
+
+
+def designed(rng, n):
+    """episodes in which the same command text is met more than once with other deferred codes in between (a slicer repeats `M117 Layer 3 of 20`,
+    `M73 P44`, `M204 S800` verbatim): the retained occurrence decides the place in the flushed sequence"""
+    from fractions import Fraction as F
+    import genprog
+    R = [('rect', 'a', F(10), F(10), F(20), F(20))]
+    pool = ['M117 Layer 3 of 20', 'M204 S800', 'M73 P44 R12', 'M205 X8', 'M117 Layer 4 of 20', 'M204 P500 T900', 'G4 P10', 'M106 S128']
+    out = []
+    for _ in range(n):
+        ext = dict(genprog.DEFAULT_EXT)
+        for code in ('M117', 'M204', 'M73', 'M205', 'G4', 'M106'):
+            if rng.random() < 0.8:
+                ext[code] = rng.choice(genprog.EXT_MODES)
+        lines = ['G28', 'G1 X5 Y5 Z0.3 F3000', 'G1 X6 Y5 E0.5', 'G1 X15 Y15 E1']
+        rep = rng.choice(pool)
+        seq = [rep] + rng.sample(pool, rng.randint(1, 3)) + [rep] + rng.sample(pool, rng.randint(0, 2))
+        if rng.random() < 0.3:
+            seq.append(rep)
+        e = 1.0
+        for c in seq:
+            lines.append(c)
+            if rng.random() < 0.4:
+                e += 0.25
+                lines.append('G1 X%d Y16 E%g' % (rng.randint(11, 19), e))
+        lines += ['G1 X30 Y30', 'G1 X31 Y30 E%g' % (e + 0.5)]
+        out.append(dict(g90e=False, enter=rng.choice([None, ['M117 in']]), exit=rng.choice([None, ['M117 out']]), ext=ext, regions=R,
+                        events=[('cmd', l) for l in lines], style='none', alen='1'))
+    return out
